@@ -25,7 +25,7 @@ ASSUMPTIONS = [
 ]
 MUST = ["contract_eval_validate_modbus_rtu_response", "contract_eval_validate_modbus_tcp_response",
         "contract_eval_validate_aa55_response", "verdict_true", "verdict_false", "verdict_partial", "verdict_rejected",
-        "transport_level_results", "malformed_answer_in_two_pieces", "concurrent_transport_cases", "accepted_rtu_read", "accepted_rtu_write", "accepted_rtu_multi", "accepted_tcp_read",
+        "transport_level_results", "malformed_answer_in_two_pieces", "exception_frames_through_transport", "concurrent_transport_cases", "accepted_rtu_read", "accepted_rtu_write", "accepted_rtu_multi", "accepted_tcp_read",
         "accepted_tcp_write", "accepted_tcp_multi", "accepted_aa55"]
 EXHAUSTIVE = {"quick": False, "thorough": False}
 
@@ -348,6 +348,36 @@ def transport_part(spec, part):
             part.violate(f"C01/{framing}/callback-exception", f"{le['message']} {le['exception'][:100]}", {"transport": True, "scenario": sc})
 
 
+def exception_frames_part(part):
+    """every exception code 0..12, 0x7F, 0x80, 0xFF answered to read / write / write-multi through the real protocol objects: an
+    exception answer is never delivered as the result of the request"""
+    for framing in ("rtu", "tcp"):
+        for kind in ("read", "write", "multi"):
+            d = {"framing": framing, "kind": kind, "comm": 0xF7, "reg": 0x0510 if kind == "multi" else 300}
+            if kind == "read":
+                d["count"], step = 2, ["read", d["reg"], 2]
+            elif kind == "write":
+                d["value"], step = 5, ["write", d["reg"], 5]
+            else:
+                d["data"], d["count"], step = bytes(4), 2, ["multi", d["reg"], "00000000"]
+            for code in list(range(0, 13)) + [0x7F, 0x80, 0xFF]:
+                for ka in (False, True):
+                    fr = rc.rtu_exception(d, code) if framing == "rtu" else rc.tcp_exception(d, code)
+                    sc = {"transport": "tcp" if framing == "tcp" else "udp", "framing": framing, "keep_alive": ka, "T": 1, "R": 1,
+                          "frames": [fr.hex(), fr.hex()], "cuts": {}, "tasks": [{"start": 0.0, "steps": [step]}]}
+                    run = engine.run_scenario(sc, peer_factory=RawPeer, quiesce=False)
+                    part.evaluations += 1
+                    part.count("exception_frames_through_transport")
+                    rec = run.calls[0] if run.calls else None
+                    if run.stop:
+                        part.violate(f"C01/{framing}/hang-on-mutated-frame", run.stop, {"excframes": True})
+                    elif rec and rec["outcome"] == "ok":
+                        part.violate(f"C01/{framing}/delivered-invalid-result",
+                                     f"{kind} request answered by an exception frame (code {code}): the request completed successfully with "
+                                     f"{rec['result'].get('raw', '')[:40]}", {"excframes": True})
+                    part.see(f"excframe|{framing}|{kind}|{code}")
+
+
 def concurrent_part(spec, part):
     """request A (read cA registers) is in flight when request B (read cB registers) is queued on the same object; the peer answers A's
     transmission with a checksum-correct read answer of B's shape: it must not complete A."""
@@ -386,6 +416,7 @@ def plan(tier, seed):
                           "n_per": 6 if tier == "quick" else 40, "havoc": 30 if tier == "quick" else 120})
     for i in range(4 if tier == "quick" else 32):
         specs.append({"mode": "transport", "seed": f"{seed}:C01:T:{i}", "n": 500 if tier == "quick" else 8000})
+    specs.append({"mode": "excframes"})
     specs.append({"mode": "concurrent", "seed": f"{seed}:C01:C", "n": 150 if tier == "quick" else 6000})
     return specs
 
@@ -397,6 +428,8 @@ def run_shard(spec):
         direct_part(spec, part)
     elif spec["mode"] == "concurrent":
         concurrent_part(spec, part)
+    elif spec["mode"] == "excframes":
+        exception_frames_part(part)
     else:
         transport_part(spec, part)
     return part
@@ -406,6 +439,9 @@ def replay(case):
     g = env.goodwe()
     part = Part()
     contracts.install_validator_contracts(contracts.Sink(part))
+    if case.get("excframes"):
+        exception_frames_part(part)
+        return [{"key": v["key"], "msg": v["msg"]} for v in part.violations]
     if case.get("concurrent"):
         concurrent_part({"seed": case["seed"], "n": case["i"] + 1}, part)
         return [{"key": v["key"], "msg": v["msg"]} for v in part.violations]
